@@ -100,7 +100,13 @@ func (in *manager) Create(r *http.Request, tokens *openid.Tokens, sessionLifetim
 	}(lock, r.Context())
 
 	if err := retry.Do(r.Context(), func(ctx context.Context) error {
-		err = in.store.Write(r.Context(), key, encrypted, sessionLifetime)
+		// the entry must not outlive the session: its expiry counts from the session's creation, however long the lock or earlier attempts took
+		remaining := time.Until(metadata.Session.EndsAt)
+		if remaining <= 0 {
+			return fmt.Errorf("session ended before it could be stored")
+		}
+
+		err = in.store.Write(r.Context(), key, encrypted, remaining)
 		return retry.RetryableError(err)
 	}); err != nil {
 		return nil, fmt.Errorf("writing to store: %w", err)
